@@ -21,4 +21,34 @@ PROPS = {
         "assumptions": ["metadata keys are not bf, fs, daughters (the constructor's own parameter names)",
                         "model_params None and '' are the same value (to_dict normalises)"],
     },
+    "C12": {
+        "harness": "c12",
+        "theorems": ["DL.C12_flatten", "DL.C12_order", "DL.C12_mother_not_stable"],
+        "partial": ["termination of the loop for acyclic chains (existence of enough fuel) is not yet a theorem: C12_flatten is "
+                    "partial correctness (whenever the loop ends); float rounding is outside the model (exact rationals; "
+                    "floats compared to 1e-12 in the harness)",
+                    "'leaves the original chain unchanged' is a runtime aliasing clause: checked by the harness snapshot"],
+        "assumptions": ["branching fractions form a commutative monoid (exact arithmetic)"],
+    },
+    "C09": {
+        "harness": "c09",
+        "theorems": ["DL.C09_spec", "DL.C09_unique", "DL.C09_notfound", "DL.C09_found", "DL.isUnfold_unique"],
+        "partial": ["existence of enough fuel for acyclic tables (termination) is not yet a theorem: C09_spec is about every "
+                    "successful build"],
+        "assumptions": ["Python recursion is modelled by a fuel argument (64 in the driver)"],
+    },
+    "C10": {
+        "harness": "c10",
+        "theorems": ["DL.C10_count", "DL.C10_count_formula", "DL.C10_alias", "DL.pathCount_eq_zero", "DL.expand_length"],
+        "partial": ["'each choice exactly once, spelled out' is carried by the correspondence with an independent enumerator of "
+                    "choices in the harness; the Lean theorems give the count and the alias clause"],
+        "assumptions": [],
+    },
+    "C13": {
+        "harness": "c13",
+        "theorems": ["DL.C13_render", "DL.C13_canonical", "DL.C13_canonical_perm", "DL.expand_single"],
+        "partial": ["read-back by bracket matching (C13_readback, injectivity) is not yet a Lean theorem: the harness reads every "
+                    "real descriptor back with a bracket reader and compares with the tree"],
+        "assumptions": ["rendering is modelled for patterns whose fields carry no conversion or format spec"],
+    },
 }
